@@ -941,6 +941,21 @@ JOBS.setdefault("C03", [])
 JOBS["C03"] += [NfContainer("take_by_ids"), NfContainer("put"), NfContainer("take_all")]
 
 
+def _vault_conservation_jobs():
+    """the fungible vault's proof locking moves amounts between the liquid and the locked balance: the same two
+    obligations that decide C10 also decide C03's conservation clause for it (registered under their own names)"""
+    from mir_jobs_engine import VaultLock
+    out = []
+    for op in ("lock", "unlock"):
+        j = VaultLock(op)
+        j.name = "c03m::fungible_vault_%s_amount_conserves" % op
+        out.append(j)
+    return out
+
+
+JOBS["C03"] += _vault_conservation_jobs()
+
+
 # =====================================================================================================
 # C12: TrackedSubstateValue -- the per-substate read / write state machine of the transaction state cache
 # =====================================================================================================
